@@ -28,6 +28,11 @@ pub assume_specification [<crate::block::Block as core::default::Default>::defau
 pub assume_specification [<crate::block::Block as core::clone::Clone>::clone](a: &crate::block::Block) -> (r: crate::block::Block)
     ensures r == *a;
 
+/// carry-less 128x128 multiplication (low, high) — uninterpreted here; its definition is the subject of C20
+pub uninterp spec fn clmul_spec(a: u128, b: u128) -> (u128, u128);
+pub assume_specification [crate::block::Block::clmul](a: &crate::block::Block, b: &crate::block::Block) -> (r: (crate::block::Block, crate::block::Block))
+    ensures (blk(r.0), blk(r.1)) == clmul_spec(blk(*a), blk(*b));
+
 // ---------------------------------------------------------------- fixed-key AES hash (opaque); TCCR hash uninterpreted
 #[verifier::external_type_specification]
 #[verifier::external_body]
